@@ -99,7 +99,12 @@ func checkC06(w *SketchWorld, slot int) (fails []mc.Fail) {
 			return
 		}
 		// append-only into a caller buffer with spare capacity
-		junk := make([]byte, 3, 3+len(enc)+16)
+		// (the spare capacity holds stale bytes, as in a recycled buffer)
+		junk := make([]byte, 3+len(enc)+16)
+		for i := range junk {
+			junk[i] = 0xa5
+		}
+		junk = junk[:3]
 		copy(junk, []byte{0xde, 0xad, 0x7f})
 		buf := junk
 		q.Encode(&buf, omit)
@@ -129,7 +134,7 @@ func checkC06(w *SketchWorld, slot int) (fails []mc.Fail) {
 				mc.Count("decodes", 1)
 				if t.K == sl.Store.K && t.N == 0 && n == 0 {
 					// same answers to every query (same store kind, unbounded)
-					if a, b := ObserveSketch(dec.Q()), before; a != b && (!sl.Exact) {
+					if a, b := ObserveSketch(dec.Q()), before; a != b {
 						fail("C06.same-answers", "the decoded sketch answers differently\n  decoded:  %s\n  original: %s", a, b)
 						return
 					}
